@@ -1676,6 +1676,7 @@ static int cfg_parse_internal(cfg_t *cfg, int level, int force_state, cfg_opt_t 
 	return STATE_EOF;
 
 error:
+	cfg_free_value(&funcopt);
 	if (opttitle)
 		free(opttitle);
 	if (comment)
